@@ -644,6 +644,12 @@ impl<'a> GeneratorState<'a> {
     pub(crate) fn push_code(&mut self, f: &str, pos: usize) -> Result<(), Error> {
         self.inline_label_counter += 1;
         if let Some(fx) = &self.current_function {
+            // The code of the function being generated is not complete: it can't be copied into itself
+            if fx == f {
+                return Err(self
+                    .compiler_state
+                    .syntax_error("An inline function can't call itself", pos));
+            }
             let code2: AssemblyCode = match self.functions_code.get(f) {
                 None => {
                     return Err(self
